@@ -52,8 +52,10 @@ Proof. exact functor_reports_effective_arguments. Qed.
 Print Assumptions C18_reported_args.
 
 (* The __init__ generated from the schema (to_schema, from_schema, make_function) has the signature
-   of the original function, for every signature the language accepts. *)
-Theorem C18_signature : forall s, wf_sig s -> no_gap (pos s) false = true -> generated_init_sig s = s.
+   of the original function, for every signature the language accepts: names, order, kinds and
+   defaults; the schema has no positional-only marker, those parameters become ordinary positional
+   ones ([drop_posonly]). *)
+Theorem C18_signature : forall s, wf_sig s -> no_gap (pos s) false = true -> generated_init_sig s = drop_posonly s.
 Proof. exact generated_init_signature_is_original. Qed.
 Print Assumptions C18_signature.
 
@@ -107,3 +109,21 @@ Theorem C18_reported_default_sets : forall q s ctor ov ie lates st0 st,
     (has_va s = true -> smem (va_name s) (nond st) = evs e && negb (is_nil (evl e))).
 Proof. exact functor_reports_default_sets. Qed.
 Print Assumptions C18_reported_default_sets.
+
+(* Positional-only parameters (the model of the language rule knows them).  A keyword naming one is a
+   TypeError for the original callable ... *)
+Theorem C18_positional_only_keyword_rejected : forall s c k,
+  is_param s k = true -> is_kwparam s k = false -> has_kw s = false -> In k (map fst (ckw c)) ->
+  py_bind s c = Err ETypeError.
+Proof. exact positional_only_keyword_rejected. Qed.
+Print Assumptions C18_positional_only_keyword_rejected.
+
+(* ... while the functor lets every argument be bound by its name and hands positional parameters over
+   by position: binding a positional-only parameter by name is an extension (it agrees with the
+   specification, whose effective call is positional), not the keyword call of the original. *)
+Theorem C18_positional_only_bound_by_name : exists q s c b,
+  wf_sig s /\ functor_bind q s c false false [] {| cpos := []; ckw := [] |} None None = Ok b /\
+  spec_outcome s c [] {| cpos := []; ckw := [] |} false false = Ok b /\
+  py_bind s c = Err ETypeError.
+Proof. exact positional_only_bound_by_name. Qed.
+Print Assumptions C18_positional_only_bound_by_name.
